@@ -1,5 +1,5 @@
 #!/usr/bin/env python3
-"""C01 -- every conformant spelling of a value reads back as that value (DESIGN.md 3.C01)."""
+"""C01 -- every conformant spelling of a value reads back as that value (DESIGN.md section 4, C01)."""
 import ast
 import io
 import os
@@ -45,7 +45,7 @@ MANIFEST_ENTRY = {
     "note": "Trusted: Coq kernel, class translator, hand model tied by correspondence, harness sampler. Known findings: odd-length "
             "hex strings (pinned by the test suite) and raw CR/CRLF inside literal strings are read differently from ISO; "
             "they are excluded from the theorems' spelling families and reported as KNOWN-FINDING.",
-    "design_ref": "DESIGN.md 3.C01",
+    "design_ref": "DESIGN.md section 4, C01",
 }
 
 WS = [b" ", b"\n", b"\r", b"\t", b"\x0c", b"\x00", b"\r\n"]
